@@ -30,7 +30,12 @@ pub enum DAct {
     SubsNone,
     /// the current expression becomes the replacement of `u` in carrier c
     Into(usize),
+    /// overloaded unary minus (deep expressions only)
+    NegOp,
+    /// named helper method of DeepEx (deep expressions only): index into HELPERS
+    Helper(usize),
 }
+const HELPERS: [&str; 2] = ["cos", "exp"];
 
 #[derive(Clone, Copy, Debug, PartialEq, Eq)]
 pub enum Focus {
@@ -52,7 +57,7 @@ impl Focus {
         match self {
             Focus::Names => true,
             Focus::Diff => matches!(a, DAct::Partial(_) | DAct::Nth(..)),
-            Focus::Apply => matches!(a, DAct::Un(_) | DAct::Bin(..)),
+            Focus::Apply => matches!(a, DAct::Un(_) | DAct::Bin(..) | DAct::NegOp | DAct::Helper(_)),
             Focus::Subs => matches!(a, DAct::Subs(..) | DAct::SubsNone | DAct::Into(_)),
             Focus::Convert => matches!(a, DAct::Convert),
             Focus::Crash => false,
@@ -207,6 +212,8 @@ impl Derive {
             }
             DAct::Convert => exact(st.clone()),
             DAct::Un(k) => exact(RefSt { tree: Tree::un(op(t, self.uns[*k], true), st.tree.clone()), declared: st.declared.clone() }),
+            DAct::NegOp => exact(RefSt { tree: Tree::un(op(t, "-", true), st.tree.clone()), declared: st.declared.clone() }),
+            DAct::Helper(k) => exact(RefSt { tree: Tree::un(op(t, HELPERS[*k], true), st.tree.clone()), declared: st.declared.clone() }),
             DAct::Bin(k, j, left) => {
                 let o = self.pool_ref(*j);
                 let k = op(t, self.bins[*k], false);
@@ -246,6 +253,8 @@ impl Derive {
             DAct::Nth(i, n) => cur.partial_nth(*i, *n, false).map_err(m),
             DAct::Convert => cur.convert().map_err(m),
             DAct::Un(k) => cur.un(self.uns[*k]).map_err(m),
+            DAct::NegOp => cur.neg_overloaded().expect("enabled for deep expressions only").map_err(m),
+            DAct::Helper(k) => cur.helper(HELPERS[*k]).expect("enabled for deep expressions only").map_err(m),
             DAct::Bin(k, j, left) => {
                 let o = self.pool_lib(*j, cur.is_deep())?;
                 if *left {
@@ -280,6 +289,8 @@ impl Derive {
             DAct::Nth(i, n) => format!("partial_nth({i}, {n}) [d/d{}]", name(i)),
             DAct::Convert => "convert to the other form".into(),
             DAct::Un(k) => format!("operate_unary({:?})", self.uns[*k]),
+            DAct::NegOp => "-self (overloaded)".into(),
+            DAct::Helper(k) => format!("self.{}()", HELPERS[*k]),
             DAct::Bin(k, j, left) => {
                 if *left {
                     format!("{}.operate_binary(self, {:?})", pool(j), self.bins[*k])
@@ -332,6 +343,14 @@ impl Hist for Derive {
         }
         for k in 0..self.uns.len() {
             out.push(DAct::Un(k));
+        }
+        let DAct::Init(_, deep0) = &hist[0] else { unreachable!() };
+        let deep_now = *deep0 ^ (hist.iter().filter(|a| matches!(a, DAct::Convert)).count() % 2 == 1);
+        if deep_now {
+            out.push(DAct::NegOp);
+            for k in 0..HELPERS.len() {
+                out.push(DAct::Helper(k));
+            }
         }
         for k in 0..self.bins.len() {
             for j in 0..self.pool.len() {
@@ -489,9 +508,9 @@ fn read_texts(texts: &[&'static str], t: &Table, prop: &str) -> Vec<(&'static st
 pub fn run_derived(rep: &mut Report, prop: &str, focus: Focus, thorough: bool) {
     let t = num_table();
     let base_src: Vec<(&'static str, Option<usize>)> = if thorough {
-        vec![("x*y+z", None), ("x+sin(y)", None), ("3*x+y", None), ("x*x*y", None), ("(y+1)*x", None), ("sin(x*y)/z", None), ("x^2-y", None), ("z", None), ("cos(x)-cos(y)*x", None), ("3*x+y", Some(0)), ("x", Some(0)), ("x*y+z", Some(0)), ("x+sin(y)", Some(1))]
+        vec![("x*y+z", None), ("x+sin(y)", None), ("3*x+y", None), ("x*x*y", None), ("(y+1)*x", None), ("sin(x*y)/z", None), ("x^2-y", None), ("z", None), ("cos(x)-cos(y)*x", None), ("x*(-(y*z))", None), ("exp(-x)", None), ("3*x+y", Some(0)), ("x", Some(0)), ("x*y+z", Some(0)), ("x+sin(y)", Some(1))]
     } else {
-        vec![("x*y+z", None), ("x+sin(y)", None), ("3*x+y", None), ("(y+1)*x", None), ("x^2-y", None), ("3*x+y", Some(0)), ("x+sin(y)", Some(1))]
+        vec![("x*y+z", None), ("x+sin(y)", None), ("3*x+y", None), ("(y+1)*x", None), ("x^2-y", None), ("x*(-(y*z))", None), ("exp(-x)", None), ("3*x+y", Some(0)), ("x+sin(y)", Some(1))]
     };
     let bases: Vec<(&'static str, Tree, Option<usize>)> = base_src.iter().map(|(s, d)| (*s, read_texts(&[*s], &t, prop).remove(0).1, *d)).collect();
     let pool_src: Vec<(&'static str, Option<usize>)> = vec![("w", None), ("x", None), ("2", None), ("x+1", None), ("x*y+z", Some(0)), ("3*x+y", Some(0)), ("x+sin(y)", Some(1))];
